@@ -16,6 +16,7 @@ import (
 
 	"google.golang.org/protobuf/types/known/structpb"
 	kerrors "k8s.io/apimachinery/pkg/api/errors"
+	"k8s.io/apimachinery/pkg/api/meta"
 	"k8s.io/apimachinery/pkg/apis/meta/v1/unstructured"
 	"k8s.io/apimachinery/pkg/runtime/schema"
 	"k8s.io/apimachinery/pkg/util/validation/field"
@@ -32,6 +33,25 @@ const forged = "FnForged"
 
 func nopObj(kind, val string) map[string]any {
 	return map[string]any{"apiVersion": "nop.ex.org/v1", "kind": kind, "spec": map[string]any{"forProvider": map[string]any{"v": val}}}
+}
+
+// rejectAs is the scripted admission with a choice of error class: writes of kind NopInvalid are
+// answered 422 Invalid, "no matches for kind" (the kind is not served), 403 or 503.
+func rejectAs(class string) sim.AdmitFunc {
+	return func(w *sim.World, req *sim.AdmitRequest) error {
+		if req.Key.Kind != "NopInvalid" || req.Operation == "DELETE" {
+			return nil
+		}
+		switch class {
+		case "notserved":
+			return &meta.NoKindMatchError{GroupKind: schema.GroupKind{Group: req.Key.Group, Kind: req.Key.Kind}, SearchedVersions: []string{"v1"}}
+		case "forbidden":
+			return kerrors.NewForbidden(schema.GroupResource{Group: req.Key.Group, Resource: "nopinvalids"}, req.Key.Name, fmt.Errorf("scripted admission: forbidden"))
+		case "unavailable":
+			return kerrors.NewServiceUnavailable("scripted admission: unavailable")
+		}
+		return rejectInvalid(w, req)
+	}
 }
 
 // rejectInvalid is the scripted admission: objects of kind NopInvalid are rejected with 422.
@@ -68,6 +88,9 @@ type pipeCase struct {
 	XRReady1 string `json:"xrReadySecondStep,omitempty"`
 	Conds   []cond `json:"conds"`   // conditions the function returns
 	Fatal   string `json:"fatal,omitempty"` // "", "second-reconcile-step0", "second-reconcile-step1"
+	// RejectAs: the error class the API server answers the apply of an "invalid" resource with:
+	// "" = 422 Invalid | notserved (no matches for kind) | forbidden | unavailable
+	RejectAs string `json:"rejectAs,omitempty"`
 }
 
 type worker struct {
@@ -179,9 +202,9 @@ func newWorker(c *kit.Ctx, id int) *worker {
 	return w
 }
 
-func (w *worker) pipeWorld(seed uint64) *sim.World {
+func (w *worker) pipeWorld(seed uint64, class string) *sim.World {
 	world := sim.NewWorld(xrk.Scheme(), seed)
-	world.AddAdmission(rejectInvalid)
+	world.AddAdmission(rejectAs(class))
 	world.MustSeed("user", w.xrd)
 	var names []string
 	for i := 0; i < 2; i++ {
@@ -224,7 +247,7 @@ func (w *worker) runPipe(i int, p pipeCase, name string) {
 	w.cur = &p
 	w.rec = 0
 	w.mu.Unlock()
-	world := w.pipeWorld(uint64(c.Seed)*131 + uint64(i))
+	world := w.pipeWorld(uint64(c.Seed)*131+uint64(i), p.RejectAs)
 	env := xrk.NewXREnv(world, xrk.XRDTyped(w.xrd))
 	defer env.CloseConns()
 	allReady, anyInvalid := true, false
@@ -508,6 +531,7 @@ func main() {
 					q.XRReady = xr
 					q.Conds = cv
 					q.XRReady1 = []string{"keep", "unset", "true", "false", "keep", "unset"}[len(pipes)%6]
+					q.RejectAs = []string{"", "notserved", "", "forbidden", "notserved", "unavailable", ""}[len(pipes)%7]
 					pipes = append(pipes, q)
 					if ci >= 1 && n <= 2 {
 						for _, f := range []string{"second-reconcile-step0", "second-reconcile-step1"} {
